@@ -764,4 +764,547 @@ theorem fit_rets_fst (stop₀ : Bool) :
   cases stop₀ <;> simp [epochLoop_rets_fst]
 end retsfst
 
+/-! ### the `Timer` is transparent: with `time=True` the log is the log without it plus `print` entries -/
+
+/-- a log without the lines the `Timer` prints -/
+def noPrint (l : List Entry) : List Entry := l.filter fun | .print _ => false | _ => true
+
+section noprint
+variable (l₁ l₂ l : List Entry) (ev : Event) (i : Nat) (f : Bool) (v : Nat) (m : TimerMsg) (e : Int) (b : Nat)
+@[simp] theorem noPrint_append : noPrint (l₁ ++ l₂) = noPrint l₁ ++ noPrint l₂ := by simp [noPrint]
+@[simp] theorem noPrint_nil : noPrint [] = [] := rfl
+@[simp] theorem noPrint_emit : noPrint (.emit ev :: l) = .emit ev :: noPrint l := by simp [noPrint]
+@[simp] theorem noPrint_call : noPrint (.call i ev f v :: l) = .call i ev f v :: noPrint l := by simp [noPrint]
+@[simp] theorem noPrint_print : noPrint (.print m :: l) = noPrint l := by simp [noPrint]
+@[simp] theorem noPrint_ret : noPrint (.ret ev f :: l) = .ret ev f :: noPrint l := by simp [noPrint]
+@[simp] theorem noPrint_shuffle : noPrint (.shuffle e :: l) = .shuffle e :: noPrint l := by simp [noPrint]
+@[simp] theorem noPrint_opt : noPrint (.optStep e b :: l) = .optStep e b :: noPrint l := by simp [noPrint]
+@[simp] theorem noPrint_sched : noPrint (.schedStep e :: l) = .schedStep e :: noPrint l := by simp [noPrint]
+end noprint
+
+/-- projections do not see `print` entries -/
+theorem noPrint_proj (l : List Entry) :
+    events (noPrint l) = events l ∧ calls (noPrint l) = calls l ∧ rets (noPrint l) = rets l ∧
+    skeleton (noPrint l) = skeleton l := by
+  induction l with
+  | nil => simp
+  | cons x l ih =>
+    obtain ⟨h1, h2, h3, h4⟩ := ih
+    cases x <;> simp [h1, h2, h3, h4]
+
+/-- the same configuration with `time=` set to `t` -/
+def Cfg.withTimer (c : Cfg) (t : Bool) : Cfg := { c with timer := t }
+
+/-- "equal up to what the Timer adds": same log after dropping printed lines, same flag / version / scheduler count -/
+def TimerEq (r r' : List Entry × S) : Prop := noPrint r.1 = r'.1 ∧ r.2.key = r'.2.key
+
+section timer
+variable (c : Cfg) (R : Req)
+
+theorem noPrint_dispatchCbs (ev : Event) (ver : Nat) (cbs : List Nat) (stop : Bool) :
+    noPrint (dispatchCbs R ev ver cbs stop).1 = (dispatchCbs R ev ver cbs stop).1 := by
+  induction cbs generalizing stop with
+  | nil => simp [dispatchCbs]
+  | cons i rest ih => simp [dispatchCbs, ih]
+
+theorem noPrint_timerHandle (ev : Event) (s : S) : noPrint (timerHandle ev s).1 = [] := by
+  unfold timerHandle
+  split <;> (try split) <;> simp
+
+theorem key_eq {s s' : S} (h : s.key = s'.key) : s.stop = s'.stop ∧ s.ver = s'.ver ∧ s.sched = s'.sched := by
+  simp only [S.key, Prod.mk.injEq] at h
+  exact h
+
+theorem dispatch_timerEq (ev : Event) {s s' : S} (h : s.key = s'.key) :
+    TimerEq (dispatch (c.withTimer true) R ev s) (dispatch (c.withTimer false) R ev s') := by
+  obtain ⟨h1, h2, h3⟩ := key_eq h
+  unfold TimerEq dispatch Cfg.withTimer
+  simp only [if_true, Bool.false_eq_true, if_false, noPrint_emit, noPrint_append, noPrint_dispatchCbs,
+    noPrint_timerHandle, noPrint_ret, noPrint_nil, List.append_nil, timerHandle_state, S.key, h1, h2, h3]
+  exact ⟨trivial, trivial⟩
+
+theorem batchStep_timerEq (e : Int) (b : Nat) {s s' : S} (h : s.key = s'.key) :
+    TimerEq (batchStep (c.withTimer true) R e b s) (batchStep (c.withTimer false) R e b s') := by
+  unfold batchStep
+  obtain ⟨g1, g2⟩ := dispatch_timerEq c R (.batchStart e b) h
+  obtain ⟨k1, k2, k3⟩ := key_eq g2
+  have h2 : ({ (dispatch (c.withTimer true) R (.batchStart e b) s).2 with
+        stop := (dispatch (c.withTimer true) R (.batchStart e b) s).2.stop || R.mid e b,
+        ver := (dispatch (c.withTimer true) R (.batchStart e b) s).2.ver + 1 } : S).key =
+      ({ (dispatch (c.withTimer false) R (.batchStart e b) s').2 with
+        stop := (dispatch (c.withTimer false) R (.batchStart e b) s').2.stop || R.mid e b,
+        ver := (dispatch (c.withTimer false) R (.batchStart e b) s').2.ver + 1 } : S).key := by
+    simp only [S.key, k1, k2, k3]
+  obtain ⟨g3, g4⟩ := dispatch_timerEq c R (.batchEnd e b) h2
+  exact ⟨by simp only [noPrint_append, noPrint_opt, g1, g3], g4⟩
+
+theorem batchLoop_timerEq (e : Int) (bs : List Nat) {s s' : S} (h : s.key = s'.key) :
+    TimerEq (batchLoop (c.withTimer true) R e bs s) (batchLoop (c.withTimer false) R e bs s') := by
+  induction bs generalizing s s' with
+  | nil => exact ⟨by simp [batchLoop], by simpa [batchLoop] using h⟩
+  | cons b rest ih =>
+    obtain ⟨g1, g2⟩ := batchStep_timerEq c R e b h
+    have hs := (key_eq g2).1
+    cases hstop : (batchStep (c.withTimer false) R e b s').2.stop
+    · rw [batchLoop_cons_go _ R e b rest s (by rw [hs, hstop]), batchLoop_cons_go _ R e b rest s' hstop]
+      obtain ⟨g3, g4⟩ := ih g2
+      exact ⟨by simp only [noPrint_append, g1, g3], g4⟩
+    · rw [batchLoop_cons_stop _ R e b rest s (by rw [hs, hstop]), batchLoop_cons_stop _ R e b rest s' hstop]
+      exact ⟨g1, g2⟩
+
+theorem schedPhase_timerEq (e : Int) {s s' : S} (h : s.key = s'.key) :
+    TimerEq (schedPhase (c.withTimer true) e s) (schedPhase (c.withTimer false) e s') := by
+  obtain ⟨h1, h2, h3⟩ := key_eq h
+  unfold TimerEq schedPhase Cfg.withTimer
+  split <;> simp [S.key, h1, h2, h3]
+
+theorem runEpoch_timerEq (e : Int) {s s' : S} (h : s.key = s'.key) :
+    TimerEq (runEpoch (c.withTimer true) R e s) (runEpoch (c.withTimer false) R e s') := by
+  unfold runEpoch
+  obtain ⟨a1, a2⟩ := dispatch_timerEq c R (.epochStart e) h
+  obtain ⟨b1, b2⟩ := batchLoop_timerEq c R e (List.range c.numBatches) a2
+  obtain ⟨c1, c2⟩ := schedPhase_timerEq c e b2
+  obtain ⟨d1, d2⟩ := dispatch_timerEq c R (.epochEnd e) c2
+  exact ⟨by simp only [noPrint_shuffle, noPrint_append, a1]; simp only [Cfg.withTimer] at *; rw [b1, c1, d1], d2⟩
+
+theorem epochLoop_timerEq (es : List Int) {s s' : S} (h : s.key = s'.key) :
+    TimerEq (epochLoop (c.withTimer true) R es s) (epochLoop (c.withTimer false) R es s') := by
+  induction es generalizing s s' with
+  | nil => exact ⟨by simp [epochLoop], by simpa [epochLoop] using h⟩
+  | cons e rest ih =>
+    obtain ⟨g1, g2⟩ := runEpoch_timerEq c R e h
+    have hs := (key_eq g2).1
+    cases hstop : (runEpoch (c.withTimer false) R e s').2.stop
+    · rw [epochLoop_cons_go _ R e rest s (by rw [hs, hstop]), epochLoop_cons_go _ R e rest s' hstop]
+      obtain ⟨g3, g4⟩ := ih g2
+      exact ⟨by simp only [noPrint_append, g1, g3], g4⟩
+    · rw [epochLoop_cons_stop _ R e rest s (by rw [hs, hstop]), epochLoop_cons_stop _ R e rest s' hstop]
+      exact ⟨g1, g2⟩
+
+theorem fit_timerEq (stop₀ : Bool) :
+    TimerEq (fit (c.withTimer true) R stop₀) (fit (c.withTimer false) R stop₀) := by
+  cases stop₀
+  · unfold fit
+    simp only [Bool.false_eq_true, if_false]
+    obtain ⟨a1, a2⟩ := dispatch_timerEq c R .trainStart
+      (s := { stop := false, notified := false, ver := 0, sched := 0 })
+      (s' := { stop := false, notified := false, ver := 0, sched := 0 }) rfl
+    obtain ⟨b1, b2⟩ := epochLoop_timerEq c R (epochRange c.start c.epochs) a2
+    obtain ⟨c1, c2⟩ := dispatch_timerEq c R .trainEnd b2
+    exact ⟨by simp only [noPrint_append, a1]; simp only [Cfg.withTimer] at *; rw [b1, c1], c2⟩
+  · simp only [fit_stopped]; exact ⟨rfl, rfl⟩
+
+/-- without the Timer nothing is printed -/
+theorem prints_noPrint (l : List Entry) : prints (noPrint l) = [] := by
+  induction l with
+  | nil => rfl
+  | cons x l ih => cases x <;> simp [ih]
+end timer
+
+/-! ### the first handler invocation that raises -/
+
+theorem cutAtRaise_some {X : Nat → Event → Option PyErr} :
+    ∀ {l pre : List Entry} {e : PyErr}, cutAtRaise X l = some (pre, e) →
+      ∃ pre' i ev seen ver post, pre = pre' ++ [Entry.call i ev seen ver] ∧ l = pre ++ post ∧ X i ev = some e ∧
+        (∀ p ∈ calls pre', X p.1 p.2 = none) := by
+  intro l
+  induction l with
+  | nil => intro pre e h; simp [cutAtRaise] at h
+  | cons x l ih =>
+    intro pre e h
+    have other : ∀ (y : Entry), calls [y] = [] → (cutAtRaise X l).map (fun p => (y :: p.1, p.2)) = some (pre, e) →
+        ∃ pre' i ev seen ver post, pre = pre' ++ [Entry.call i ev seen ver] ∧ y :: l = pre ++ post ∧ X i ev = some e ∧
+          (∀ p ∈ calls pre', X p.1 p.2 = none) := by
+      intro y hy hm
+      cases hc : cutAtRaise X l with
+      | none => simp [hc] at hm
+      | some q =>
+        obtain ⟨q1, q2⟩ := q
+        simp only [hc, Option.map_some, Option.some.injEq, Prod.mk.injEq] at hm
+        obtain ⟨pre', i, ev, seen, ver, post, e1, e2, e3, e4⟩ := ih hc
+        refine ⟨y :: pre', i, ev, seen, ver, post, ?_, ?_, ?_, ?_⟩
+        · rw [← hm.1, e1]; rfl
+        · rw [← hm.1, e2]; rfl
+        · rw [← hm.2]; exact e3
+        · intro p hp
+          rw [calls_cons, hy] at hp
+          exact e4 p hp
+    cases x with
+    | call i ev seen ver =>
+      simp only [cutAtRaise] at h
+      cases hx : X i ev with
+      | some e' =>
+        simp only [hx, Option.some.injEq, Prod.mk.injEq] at h
+        refine ⟨[], i, ev, seen, ver, l, ?_, ?_, ?_, ?_⟩
+        · rw [← h.1]; rfl
+        · rw [← h.1]; rfl
+        · rw [← h.2]; exact hx
+        · intro p hp; simp at hp
+      | none =>
+        simp only [hx] at h
+        cases hc : cutAtRaise X l with
+        | none => simp [hc] at h
+        | some q =>
+          obtain ⟨q1, q2⟩ := q
+          simp only [hc, Option.map_some, Option.some.injEq, Prod.mk.injEq] at h
+          obtain ⟨pre', i', ev', seen', ver', post, e1, e2, e3, e4⟩ := ih hc
+          refine ⟨.call i ev seen ver :: pre', i', ev', seen', ver', post, ?_, ?_, ?_, ?_⟩
+          · rw [← h.1, e1]; rfl
+          · rw [← h.1, e2]; rfl
+          · rw [← h.2]; exact e3
+          · intro p hp
+            simp only [calls_call, List.mem_cons] at hp
+            rcases hp with rfl | hp
+            · exact hx
+            · exact e4 p hp
+    | emit ev => exact other _ rfl (by simpa [cutAtRaise] using h)
+    | print m => exact other _ rfl (by simpa [cutAtRaise] using h)
+    | ret ev f => exact other _ rfl (by simpa [cutAtRaise] using h)
+    | shuffle e' => exact other _ rfl (by simpa [cutAtRaise] using h)
+    | optStep e' b => exact other _ rfl (by simpa [cutAtRaise] using h)
+    | schedStep e' => exact other _ rfl (by simpa [cutAtRaise] using h)
+
+theorem cutAtRaise_none {X : Nat → Event → Option PyErr} :
+    ∀ {l : List Entry}, (∀ p ∈ calls l, X p.1 p.2 = none) → cutAtRaise X l = none := by
+  intro l
+  induction l with
+  | nil => intro _; rfl
+  | cons x l ih =>
+    intro h
+    have hl : cutAtRaise X l = none := ih (fun p hp => h p (by rw [calls_cons]; exact List.mem_append_right _ hp))
+    cases x with
+    | call i ev seen ver =>
+      have := h (i, ev) (by simp)
+      simp only at this
+      simp [cutAtRaise, this, hl]
+    | emit ev => simp [cutAtRaise, hl]
+    | print m => simp [cutAtRaise, hl]
+    | ret ev f => simp [cutAtRaise, hl]
+    | shuffle e' => simp [cutAtRaise, hl]
+    | optStep e' b => simp [cutAtRaise, hl]
+    | schedStep e' => simp [cutAtRaise, hl]
+
+/-! ### `CallbackList` container operations as plain list surgery -/
+
+theorem insertIdx_take_drop {α : Type} (x : α) : ∀ (l : List α) (i : Nat), i ≤ l.length →
+    l.insertIdx i x = l.take i ++ x :: l.drop i := by
+  intro l
+  induction l with
+  | nil => intro i h; have : i = 0 := by simpa using h
+           subst this; rfl
+  | cons a l ih =>
+    intro i h
+    cases i with
+    | zero => rfl
+    | succ i =>
+      rw [List.insertIdx_succ_cons, ih i (by simpa using h)]
+      rfl
+
+theorem pyIdx_some {n : Nat} {k : Int} {j : Nat} (h : pyIdx n k = some j) :
+    j < n ∧ (j : Int) = (if k < 0 then k + n else k) := by
+  unfold pyIdx at h
+  by_cases hk : k < 0
+  · simp only [hk, if_true] at h ⊢
+    by_cases h1 : k + (n : Int) < 0
+    · simp [h1] at h
+    · by_cases h2 : (k + (n : Int)).toNat < n
+      · simp only [h1, if_false, h2, if_true, Option.some.injEq] at h
+        subst h; exact ⟨h2, by omega⟩
+      · simp [h1, h2] at h
+  · simp only [hk, if_false] at h ⊢
+    by_cases h2 : k.toNat < n
+    · simp only [h2, if_true, Option.some.injEq] at h
+      subst h; exact ⟨h2, by omega⟩
+    · simp [h2] at h
+
+theorem pyIdx_none {n : Nat} {k : Int} (h : pyIdx n k = none) : k < -(n : Int) ∨ (n : Int) ≤ k := by
+  unfold pyIdx at h
+  by_cases hk : k < 0
+  · simp only [hk, if_true] at h
+    by_cases h1 : k + (n : Int) < 0
+    · left; omega
+    · by_cases h2 : (k + (n : Int)).toNat < n
+      · simp [h1, h2] at h
+      · omega
+  · simp only [hk, if_false] at h
+    by_cases h2 : k.toNat < n
+    · simp [h2] at h
+    · right; omega
+
+theorem insIdx_le (n : Nat) (k : Int) : insIdx n k ≤ n := by
+  unfold insIdx
+  by_cases hk : k < 0 <;> simp only [hk, if_true, if_false] <;> (try split) <;> omega
+
+/-! ### what the `Timer` prints -/
+
+/-- an end event (`on_batch_end` / `on_epoch_end`) after whose user callbacks the flag is set -/
+def endSet (x : Event × Bool) : Bool := x.1.isEnd && x.2
+
+/-- the line the Timer prints when it first sees the flag set at this event -/
+def timerLine : Event → List TimerMsg
+  | .batchEnd e b => [.terminatedBatch e b]
+  | .epochEnd e => [.terminatedEpoch e]
+  | _ => []
+
+/-- the "Training terminated" line of a flagged trace: at its first end event with the flag set -/
+def firstMsg (r : List (Event × Bool)) : List TimerMsg :=
+  match r.find? endSet with
+  | some x => timerLine x.1
+  | none => []
+
+theorem firstMsg_append (r1 r2 : List (Event × Bool)) :
+    firstMsg (r1 ++ r2) = if r1.any endSet then firstMsg r1 else firstMsg r2 := by
+  unfold firstMsg
+  rw [List.find?_append]
+  cases h : r1.find? endSet with
+  | some x =>
+    have : r1.any endSet = true := by
+      rw [List.any_eq_true]
+      exact ⟨x, List.mem_of_find?_eq_some h, List.find?_some h⟩
+    simp [this]
+  | none =>
+    have : r1.any endSet = false := by
+      rw [List.any_eq_false]
+      intro x hx
+      have := List.find?_eq_none.mp h x hx
+      simpa using this
+    simp [this]
+
+theorem firstMsg_of_not_any {r : List (Event × Bool)} (h : r.any endSet = false) : firstMsg r = [] := by
+  unfold firstMsg
+  have : r.find? endSet = none := by
+    rw [List.find?_eq_none]
+    intro x hx
+    rw [List.any_eq_false] at h
+    simpa using h x hx
+  rw [this]
+
+/-- a log segment run from a state with `already_notified = n` to one with `n'` behaves like the Timer: it prints
+the terminated-line of its first flagged end event unless already notified -/
+def TimerSeg (l : List Entry) (n n' : Bool) : Prop :=
+  prints l = (if n then [] else firstMsg (rets l)) ∧ n' = (n || (rets l).any endSet)
+
+theorem TimerSeg.append {l1 l2 : List Entry} {n n1 n2 : Bool} (h1 : TimerSeg l1 n n1) (h2 : TimerSeg l2 n1 n2) :
+    TimerSeg (l1 ++ l2) n n2 := by
+  obtain ⟨a1, a2⟩ := h1
+  obtain ⟨b1, b2⟩ := h2
+  refine ⟨?_, ?_⟩
+  · rw [prints_append, rets_append, a1, b1, a2, firstMsg_append]
+    cases n <;> cases h : (rets l1).any endSet <;> simp [firstMsg_of_not_any, h]
+  · rw [rets_append, List.any_append, b2, a2, Bool.or_assoc]
+
+theorem TimerSeg.nil (n : Bool) : TimerSeg [] n n := by simp [TimerSeg, firstMsg]
+
+theorem TimerSeg.silent {l : List Entry} (n : Bool) (hp : prints l = []) (hr : rets l = []) : TimerSeg l n n := by
+  simp [TimerSeg, hp, hr, firstMsg]
+
+section timerprints
+variable (c : Cfg) (R : Req)
+
+theorem dispatch_timerSeg (ev : Event) (s : S) (hev : ev ≠ .trainEnd) :
+    TimerSeg (dispatch (c.withTimer true) R ev s).1 s.notified (dispatch (c.withTimer true) R ev s).2.notified := by
+  unfold TimerSeg
+  rw [dispatch_rets]
+  unfold dispatch Cfg.withTimer
+  simp only [if_true, prints_emit, prints_append, (dispatchCbs_proj R ev s.ver c.cbs s.stop).2.2.2.1, List.nil_append,
+    dispatchCbs_stop, reqEv]
+  cases ev with
+  | trainEnd => exact absurd rfl hev
+  | batchEnd e b =>
+    cases hn : s.notified <;> cases hs : (s.stop || c.cbs.any fun i => R.cb i (.batchEnd e b)) <;>
+      simp [timerHandle, firstMsg, endSet, Event.isEnd, timerLine, *]
+  | epochEnd e =>
+    cases hn : s.notified <;> cases hs : (s.stop || c.cbs.any fun i => R.cb i (.epochEnd e)) <;>
+      simp [timerHandle, firstMsg, endSet, Event.isEnd, timerLine, *]
+  | trainStart => cases hn : s.notified <;> simp [timerHandle, firstMsg, endSet, Event.isEnd]
+  | epochStart e => cases hn : s.notified <;> simp [timerHandle, firstMsg, endSet, Event.isEnd]
+  | batchStart e b => cases hn : s.notified <;> simp [timerHandle, firstMsg, endSet, Event.isEnd]
+
+theorem batchStep_timerSeg (e : Int) (b : Nat) (s : S) :
+    TimerSeg (batchStep (c.withTimer true) R e b s).1 s.notified (batchStep (c.withTimer true) R e b s).2.notified := by
+  unfold batchStep
+  have h1 := dispatch_timerSeg c R (.batchStart e b) s (by simp)
+  have h2 := dispatch_timerSeg c R (.batchEnd e b)
+    { (dispatch (c.withTimer true) R (.batchStart e b) s).2 with
+      stop := (dispatch (c.withTimer true) R (.batchStart e b) s).2.stop || R.mid e b,
+      ver := (dispatch (c.withTimer true) R (.batchStart e b) s).2.ver + 1 } (by simp)
+  have h3 : TimerSeg [Entry.optStep e b] (dispatch (c.withTimer true) R (.batchStart e b) s).2.notified
+      (dispatch (c.withTimer true) R (.batchStart e b) s).2.notified := TimerSeg.silent _ rfl rfl
+  have := (h1.append h3).append h2
+  simpa [List.append_assoc] using this
+
+theorem batchLoop_timerSeg (e : Int) (bs : List Nat) (s : S) :
+    TimerSeg (batchLoop (c.withTimer true) R e bs s).1 s.notified (batchLoop (c.withTimer true) R e bs s).2.notified := by
+  induction bs generalizing s with
+  | nil => simpa [batchLoop] using TimerSeg.nil s.notified
+  | cons b rest ih =>
+    cases h : (batchStep (c.withTimer true) R e b s).2.stop
+    · rw [batchLoop_cons_go _ R e b rest s h]
+      exact (batchStep_timerSeg c R e b s).append (ih _)
+    · rw [batchLoop_cons_stop _ R e b rest s h]; exact batchStep_timerSeg c R e b s
+
+theorem schedPhase_timerSeg (e : Int) (s : S) :
+    TimerSeg (schedPhase (c.withTimer true) e s).1 s.notified (schedPhase (c.withTimer true) e s).2.notified := by
+  unfold schedPhase
+  split
+  · exact TimerSeg.silent _ rfl rfl
+  · exact TimerSeg.nil _
+
+theorem runEpoch_timerSeg (e : Int) (s : S) :
+    TimerSeg (runEpoch (c.withTimer true) R e s).1 s.notified (runEpoch (c.withTimer true) R e s).2.notified := by
+  unfold runEpoch
+  have h0 : TimerSeg [Entry.shuffle e] s.notified s.notified := TimerSeg.silent _ rfl rfl
+  have h1 := dispatch_timerSeg c R (.epochStart e) s (by simp)
+  have h2 := batchLoop_timerSeg c R e (List.range (c.withTimer true).numBatches) (dispatch (c.withTimer true) R (.epochStart e) s).2
+  have h3 := schedPhase_timerSeg c e (batchLoop (c.withTimer true) R e (List.range (c.withTimer true).numBatches)
+    (dispatch (c.withTimer true) R (.epochStart e) s).2).2
+  have h4 := dispatch_timerSeg c R (.epochEnd e) (schedPhase (c.withTimer true) e (batchLoop (c.withTimer true) R e
+    (List.range (c.withTimer true).numBatches) (dispatch (c.withTimer true) R (.epochStart e) s).2).2).2 (by simp)
+  have := (((h0.append h1).append h2).append h3).append h4
+  simpa [List.append_assoc] using this
+
+theorem epochLoop_timerSeg (es : List Int) (s : S) :
+    TimerSeg (epochLoop (c.withTimer true) R es s).1 s.notified (epochLoop (c.withTimer true) R es s).2.notified := by
+  induction es generalizing s with
+  | nil => simpa [epochLoop] using TimerSeg.nil s.notified
+  | cons e rest ih =>
+    cases h : (runEpoch (c.withTimer true) R e s).2.stop
+    · rw [epochLoop_cons_go _ R e rest s h]
+      exact (runEpoch_timerSeg c R e s).append (ih _)
+    · rw [epochLoop_cons_stop _ R e rest s h]; exact runEpoch_timerSeg c R e s
+
+theorem dispatch_trainEnd_prints (s : S) :
+    prints (dispatch (c.withTimer true) R .trainEnd s).1 = [.total] := by
+  unfold dispatch Cfg.withTimer
+  simp [timerHandle, (dispatchCbs_proj R .trainEnd s.ver c.cbs s.stop).2.2.2.1]
+
+/-- what the Timer prints in a run that was not silent: the terminated-line of the first end event (before train-end) after
+whose user callbacks the flag is set, then the elapsed-time line -/
+theorem fit_prints :
+    ∃ pre, rets (fit (c.withTimer true) R false).1 = pre ++ [(.trainEnd, (fit (c.withTimer true) R false).2.stop)] ∧
+      prints (fit (c.withTimer true) R false).1 = firstMsg pre ++ [.total] := by
+  have key : ∀ (A : List Entry) (sE : S), prints A = firstMsg (rets A) →
+      ∃ pre, rets (A ++ (dispatch (c.withTimer true) R .trainEnd sE).1) =
+          pre ++ [(.trainEnd, (dispatch (c.withTimer true) R .trainEnd sE).2.stop)] ∧
+        prints (A ++ (dispatch (c.withTimer true) R .trainEnd sE).1) = firstMsg pre ++ [.total] := by
+    intro A sE hA
+    refine ⟨rets A, ?_, ?_⟩
+    · rw [rets_append, dispatch_rets, dispatch_stop]
+    · rw [prints_append, hA, dispatch_trainEnd_prints]
+  unfold fit
+  simp only [Bool.false_eq_true, if_false]
+  have h1 := dispatch_timerSeg c R .trainStart { stop := false, notified := false, ver := 0, sched := 0 } (by simp)
+  have h2 := epochLoop_timerSeg c R (epochRange (c.withTimer true).start (c.withTimer true).epochs)
+    (dispatch (c.withTimer true) R .trainStart { stop := false, notified := false, ver := 0, sched := 0 }).2
+  obtain ⟨p1, _⟩ := h1.append h2
+  exact key _ _ (by simpa using p1)
+end timerprints
+
+/-! ### every handler invocation is for the event emitted last -/
+
+/-- the event being dispatched after the log `l` (the last one emitted), `cur` if none was emitted in `l` -/
+def curAfter (cur : Option Event) : List Entry → Option Event
+  | [] => cur
+  | .emit ev :: l => curAfter (some ev) l
+  | _ :: l => curAfter cur l
+
+/-- every handler invocation in `l` is for the event emitted last before it -/
+def callsOK (cur : Option Event) : List Entry → Bool
+  | [] => true
+  | .emit ev :: l => callsOK (some ev) l
+  | .call _ ev _ _ :: l => (cur == some ev) && callsOK cur l
+  | _ :: l => callsOK cur l
+
+theorem curAfter_append (cur : Option Event) (l₁ l₂ : List Entry) :
+    curAfter cur (l₁ ++ l₂) = curAfter (curAfter cur l₁) l₂ := by
+  induction l₁ generalizing cur with
+  | nil => rfl
+  | cons x l ih => cases x <;> simp [curAfter, ih]
+
+theorem callsOK_append (cur : Option Event) (l₁ l₂ : List Entry) :
+    callsOK cur (l₁ ++ l₂) = (callsOK cur l₁ && callsOK (curAfter cur l₁) l₂) := by
+  induction l₁ generalizing cur with
+  | nil => simp [callsOK, curAfter]
+  | cons x l ih => cases x <;> simp [callsOK, curAfter, ih, Bool.and_assoc]
+
+theorem curAfter_none (l : List Entry) (cur : Option Event) :
+    curAfter cur l = ((events l).getLast?).or cur := by
+  induction l generalizing cur with
+  | nil => simp [curAfter]
+  | cons x l ih =>
+    cases x <;> simp [curAfter, ih]
+    rename_i ev
+    cases h : (events l).getLast? with
+    | none => simp [List.getLast?_eq_none_iff.mp h]
+    | some y => 
+      have hne : events l ≠ [] := by intro h0; rw [h0] at h; simp at h
+      rw [List.getLast?_cons_of_ne_nil hne] <;> simp [h]
+
+section callsok
+variable (c : Cfg) (R : Req)
+
+theorem dispatchCbs_callsOK (ev : Event) (ver : Nat) (cbs : List Nat) (stop : Bool) :
+    callsOK (some ev) (dispatchCbs R ev ver cbs stop).1 = true ∧
+    curAfter (some ev) (dispatchCbs R ev ver cbs stop).1 = some ev := by
+  induction cbs generalizing stop with
+  | nil => simp [dispatchCbs, callsOK, curAfter]
+  | cons i rest ih => simp [dispatchCbs, callsOK, curAfter, ih]
+
+theorem timerHandle_callsOK (ev : Event) (s : S) (cur : Option Event) :
+    callsOK cur (timerHandle ev s).1 = true ∧ curAfter cur (timerHandle ev s).1 = cur := by
+  unfold timerHandle
+  split <;> (try split) <;> simp [callsOK, curAfter]
+
+theorem dispatch_callsOK (ev : Event) (s : S) (cur : Option Event) :
+    callsOK cur (dispatch c R ev s).1 = true := by
+  unfold dispatch
+  simp only [callsOK, callsOK_append, (dispatchCbs_callsOK R ev s.ver c.cbs s.stop).1,
+    (dispatchCbs_callsOK R ev s.ver c.cbs s.stop).2, Bool.true_and]
+  split <;> simp [callsOK, (timerHandle_callsOK _ _ _).1]
+
+theorem batchStep_callsOK (e : Int) (b : Nat) (s : S) (cur : Option Event) :
+    callsOK cur (batchStep c R e b s).1 = true := by
+  unfold batchStep
+  simp [callsOK_append, callsOK, dispatch_callsOK]
+
+theorem batchLoop_callsOK (e : Int) (bs : List Nat) (s : S) (cur : Option Event) :
+    callsOK cur (batchLoop c R e bs s).1 = true := by
+  induction bs generalizing s cur with
+  | nil => simp [batchLoop, callsOK]
+  | cons b rest ih =>
+    cases h : (batchStep c R e b s).2.stop
+    · rw [batchLoop_cons_go c R e b rest s h]; simp [callsOK_append, batchStep_callsOK, ih]
+    · rw [batchLoop_cons_stop c R e b rest s h]; exact batchStep_callsOK c R e b s cur
+
+theorem schedPhase_callsOK (e : Int) (s : S) (cur : Option Event) :
+    callsOK cur (schedPhase c e s).1 = true := by
+  unfold schedPhase; split <;> simp [callsOK]
+
+theorem runEpoch_callsOK (e : Int) (s : S) (cur : Option Event) :
+    callsOK cur (runEpoch c R e s).1 = true := by
+  unfold runEpoch
+  simp [callsOK_append, callsOK, dispatch_callsOK, batchLoop_callsOK, schedPhase_callsOK]
+
+theorem epochLoop_callsOK (es : List Int) (s : S) (cur : Option Event) :
+    callsOK cur (epochLoop c R es s).1 = true := by
+  induction es generalizing s cur with
+  | nil => simp [epochLoop, callsOK]
+  | cons e rest ih =>
+    cases h : (runEpoch c R e s).2.stop
+    · rw [epochLoop_cons_go c R e rest s h]; simp [callsOK_append, runEpoch_callsOK, ih]
+    · rw [epochLoop_cons_stop c R e rest s h]; exact runEpoch_callsOK c R e s cur
+
+theorem fit_callsOK (stop₀ : Bool) : callsOK none (fit c R stop₀).1 = true := by
+  unfold fit
+  cases stop₀ <;> simp [callsOK_append, callsOK, dispatch_callsOK, epochLoop_callsOK]
+end callsok
+
+/-- in a log whose invocations are all for the event emitted last, the event of an invocation is the last one emitted before it -/
+theorem callsOK_split {cur : Option Event} {pre post : List Entry} {i : Nat} {ev : Event} {seen : Bool} {v : Nat}
+    (h : callsOK cur (pre ++ Entry.call i ev seen v :: post) = true) : curAfter cur pre = some ev := by
+  rw [callsOK_append] at h
+  simp only [callsOK, Bool.and_eq_true, beq_iff_eq] at h
+  exact h.2.1
+
+
 end QV.Train
